@@ -230,10 +230,11 @@ class Sched(object):
         self.cur = nxt
         nxt.sem.release()
         self.main_sem.acquire()
-        if self.aborting:
-            for t in self.threads:
-                if not t.done:
-                    t.sem.release()
+        leftover = [t for t in self.threads if not t.done]
+        if leftover:   # aborted execution, or threads frozen for ever (killed virtual processes): unwind them
+            self.aborting = True
+            for t in leftover:
+                t.sem.release()
         for t in self.threads:
             if not t.fin.acquire(timeout=10):
                 raise Divergence('a scheduler thread did not unwind')
@@ -333,7 +334,7 @@ class VThreadShim(object):
 
 
 # ---------------------------------------------------------------------------------------------- exploration
-def explore(run_one, bound, max_execs=None, shard=(0, 1), shard_depth=None):
+def explore(run_one, bound, max_execs=None, shard=(0, 1), shard_depth=None, stop_on=None):
     """Stateless DFS over choice prefixes with a preemption bound (Musuvathi-Qadeer iterative context bounding, one bound).
     run_one(prefix) -> (sched, verdict).  Sharding: every shard walks the tree down to `shard_depth` deviations (cheap, and
     identical in every shard because executions are deterministic); the subtrees hanging below that depth are dealt round-robin.
@@ -364,6 +365,9 @@ def explore(run_one, bound, max_execs=None, shard=(0, 1), shard_depth=None):
         n += 1
         if depth >= shard_depth or shard[0] == 0 or shard[1] == 1:
             results.append((list(s.choices), verdict))
+        if stop_on is not None and stop_on(s, verdict):   # e.g. an execution that does not terminate: report it, do not unroll it
+            capped = bool(stack)
+            break
         max_points = max(max_points, len(s.points))
         pre = 0
         pres = []
